@@ -489,6 +489,10 @@ def match_known(ctx, pid, kind, contexts, sites, rid=None):
     for f in ctx.known_db.get("findings", []):
         if pid not in f.get("properties", []):
             continue
+        if f.get("crash_contains"):
+            continue          # crash findings are matched on the panic text only (triage_gw)
+        if not (f.get("context") or f.get("contexts") or f.get("sites") or f.get("context_prefixes")):
+            continue          # a finding without a signature never absorbs a violation
         if f.get("kind") not in (None, kind):
             continue
         need = f.get("context")
